@@ -2,6 +2,7 @@
    triples are valid.  Only statements closed by [exact], each followed by
    Print Assumptions. *)
 From Coq Require Import NArith List Bool Arith.
+From Mpc Require Import Proto.Live Gmw.GmwNet Gmw.GmwNetProof Gen.SkelGmw.
 From Mpc Require Import Base.Codec Circuit.Circuit Gmw.Gmw Gmw.Pool Gmw.GmwProof Gmw.PoolSync Gmw.PoolSyncProof Gmw.GmwReuse Gmw.GmwReuseProof.
 Import ListNotations.
 From Mpc Require Gen.State Base.StateExpected Base.StateCheck Base.StatePkgs.
@@ -222,6 +223,86 @@ Theorem C10_reuse_untruncated_output_refuted :
   end = [true; true; false; true].
 Proof. exact ex_reuse_stale_without_split. Qed.
 Print Assumptions C10_reuse_untruncated_output_refuted.
+
+(* ONLINE PHASE AS A NETWORK (Gmw/GmwNet.v): n parties, pairwise FIFO channels, a
+   write buffer per peer at every sender (p2p.Conn), Send / Flush / blocking Receive;
+   a Send may flush on its own (buffer full) — a choice of the schedule.  The order of
+   the operations of every party is the skeleton harness/gen_skel_gmw.go extracts from
+   gmw/network.go and gmw/peer.go on every run (Gen/SkelGmw.v); Gmw/GmwNet.gflat turns
+   it into the action list of party `self` of `n` for a list of levels (AND count,
+   len(nw.andD)); every item carries (phase, level, sender, receiver, kind) and a
+   Receive that meets another item than the one it expects sets ns_bad.
+
+   (N1) The skeleton extracted from the CURRENT source is the reference skeleton the
+   theorems below are proved for, and the translator met nothing it did not understand
+   (a deleted Flush, a reordered Send/Receive, a connection operation on another
+   connection: this obligation breaks). *)
+Theorem C10_net_skeleton_from_source : skel_gmw_run = ref_run /\ skel_gmw_errors = [].
+Proof. exact skel_matches_source. Qed.
+Print Assumptions C10_net_skeleton_from_source.
+
+(* (N2) For EVERY number of parties n, EVERY list of levels (number of AND gates and
+   vector length per level index; levels without AND gates exchange nothing) and EVERY
+   fair schedule — any interleaving of the parties in which every party is scheduled
+   again and again (at least total_len rounds covering all parties), with any choice of
+   automatic flushes —: all parties finish, every write buffer and every channel is
+   empty, and no Receive met an item other than the one sent for that phase and level
+   by that peer (ndone). *)
+Theorem C10_net_online_live :
+  forall (n : nat) (levels : list GmwNet.level) (sched : list GmwNet.choice),
+    nfair n (party_acts skel_gmw_run n levels) sched ->
+    ndone n (nrun sched (ninit n (party_acts skel_gmw_run n levels))) = true.
+Proof. exact gmw_online_live. Qed.
+Print Assumptions C10_net_online_live.
+
+(* (N3) Under EVERY schedule, fair or not, at every moment: no Receive has met an
+   item of another phase, level, peer or kind than it expects (no cross-level mix-up). *)
+Theorem C10_net_online_no_mixup :
+  forall (n : nat) (levels : list GmwNet.level) (sched : list GmwNet.choice),
+    ns_bad (nrun sched (ninit n (party_acts skel_gmw_run n levels))) = false.
+Proof. exact gmw_online_safe. Qed.
+Print Assumptions C10_net_online_no_mixup.
+
+(* (N4) The general result behind (N2): for every n, every family of programs that is
+   compatible (what i sends to j is, in order, what j expects from i), clean (no
+   unflushed data when a party receives or ends) and ranked (a rank on items such that,
+   within every program, an item received before another is sent has the smaller rank),
+   every fair schedule ends with ndone. *)
+Theorem C10_net_live_generic :
+  forall (n : nat) (progs : nat -> list nact) (rk : tag -> nat),
+    compatible n progs -> (forall i, i < n -> clean (progs i)) -> (forall i, i < n -> okr rk (progs i)) ->
+    forall sched, nfair n progs sched -> ndone n (nrun sched (ninit n progs)) = true.
+Proof. exact net_live_generic. Qed.
+Print Assumptions C10_net_live_generic.
+
+(* (N5) What the flattened skeleton is, for every n, levels and party: per phase (input
+   sharing; every level with AND gates; output reconstruction), for every peer j in
+   ascending id order, the lower id sends (Data, or Uint32 + the labels of d and e),
+   flushes, then receives; the higher id receives, then sends and flushes. *)
+Theorem C10_net_flat_is_program :
+  forall (n : nat) (levels : list GmwNet.level) (self : nat),
+    party_acts ref_run n levels self = party_prog n levels self.
+Proof. exact gflat_ref. Qed.
+Print Assumptions C10_net_flat_is_program.
+
+(* (N6) The fairness hypothesis is not vacuous: for every n >= 1 and every program
+   family the round-robin schedule of total_len rounds is fair. *)
+Theorem C10_net_fair_schedules_exist :
+  forall (n : nat) (progs : nat -> list nact), 0 < n -> nfair n progs (rr_sched n (total_len n progs)).
+Proof. exact rr_is_fair. Qed.
+Print Assumptions C10_net_fair_schedules_exist.
+
+(* (N7) Regression record: the variant in which the lower party of every exchange
+   receives BEFORE it flushes does not terminate — a fair schedule of two parties after
+   which the network is not done (both parties blocked in a Receive, the shares still
+   in the write buffers), although no unexpected item was met. *)
+Theorem C10_net_recv_before_flush_refuted :
+  exists (n : nat) (levels : list GmwNet.level) (sched : list GmwNet.choice),
+    2 <= n /\ nfair n (party_acts rbf_run n levels) sched /\
+    ndone n (nrun sched (ninit n (party_acts rbf_run n levels))) = false /\
+    ns_bad (nrun sched (ninit n (party_acts rbf_run n levels))) = false.
+Proof. exact rbf_refuted. Qed.
+Print Assumptions C10_net_recv_before_flush_refuted.
 
 (* OUTSIDE THE MODEL: the command-line front end.  apps/garbled -gmw (gmwMode:
    per round create/join the network, Connect, loadCircuit with the input
